@@ -7,7 +7,7 @@
 From DV Require Import Base.Prelude Model.NameM Model.SchemaM.
 Open Scope Z_scope.
 
-Inductive hid := HHip | HIpseckey | HAmtrelay | HApl | HSvcb.
+Inductive hid := HHip | HIpseckey | HAmtrelay | HApl | HSvcb | HLoc.
 
 Definition get_u (wire : list Z) (endp cur w : nat) : res (Z * nat) :=
   do bc <- get_bytes wire endp cur w; Ok (be_decode (fst bc), snd bc).
@@ -347,10 +347,100 @@ Definition svcb_enc (o : option name) (vs : list val) : res (list Z) :=
 Definition svcb_shape : list fld :=
   [FS (FU 2 65535); FS (FName true); FRepeat false false [FU 2 65535; FCounted 2 0 65535]].
 
+(* ------------------------------------------------------------------ LOC (integer skeleton) *)
+(* dns/rdtypes/ANY/LOC.py.  Value:
+     [VL [[VI d; VI m; VI s; VI ms; VI sign]]; VL [[... longitude ...]]; VS (VI altitude_cm);
+      VS (VI size_cm); VS (VI hprec_cm); VS (VI vprec_cm)]
+   The float detour of the reader (x / 3600000, then round(x * 3600000) in _float_to_tuple) is
+   exact for |x| <= 180 degrees, so the model works on integers; the correspondence checks that. *)
+Definition two31 := 2147483648.
+
+Definition coord_of_wire (v : Z) : list sval :=
+  let sign := if v >=? two31 then 1 else -1 in
+  let ms := Z.abs (v - two31) in
+  [VI (ms / 3600000); VI ((ms mod 3600000) / 60000); VI ((ms mod 60000) / 1000); VI (ms mod 1000); VI sign].
+
+(* _decode_size *)
+Definition loc_decode_size (b : Z) : res Z :=
+  let e := b mod 16 in
+  let base := b / 16 in
+  if e >? 9 then Lib eFormError else if base >? 9 then Lib eFormError
+  else Ok (base * 10 ^ e).
+
+Definition loc_dec (wire : list Z) (o : option name) (endp cur : nat) : res (list val * nat) :=
+  do ver <- get_u wire endp cur 1;
+  do size <- get_u wire endp (snd ver) 1;
+  do hp <- get_u wire endp (snd size) 1;
+  do vp <- get_u wire endp (snd hp) 1;
+  do lat <- get_u wire endp (snd vp) 4;
+  do lon <- get_u wire endp (snd lat) 4;
+  do alt <- get_u wire endp (snd lon) 4;
+  if negb (fst ver =? 0) then Lib eFormError
+  else if (fst lat <? two31 - 90 * 3600000) || (fst lat >? two31 + 90 * 3600000) then Lib eFormError
+  else if (fst lon <? two31 - 180 * 3600000) || (fst lon >? two31 + 180 * 3600000) then Lib eFormError
+  else
+    do s <- loc_decode_size (fst size);
+    do h <- loc_decode_size (fst hp);
+    do v <- loc_decode_size (fst vp);
+    Ok ([VL [coord_of_wire (fst lat)]; VL [coord_of_wire (fst lon)]; VS (VI (fst alt - 10000000));
+         VS (VI s); VS (VI h); VS (VI v)], snd alt).
+
+(* _check_coordinate_list *)
+Definition coord_valid (lim : Z) (c : list sval) : bool :=
+  match c with
+  | [VI d; VI m; VI s; VI ms; VI sg] =>
+      (- lim <=? d) && (d <=? lim) && (0 <=? m) && (m <=? 59) && (0 <=? s) && (s <=? 59)
+      && (0 <=? ms) && (ms <=? 999) && ((sg =? 1) || (sg =? -1))
+  | _ => false
+  end.
+
+Definition loc_valid (vs : list val) : bool :=
+  match vs with
+  | [VL [lat]; VL [lon]; VS (VI _); VS (VI _); VS (VI _); VS (VI _)] => coord_valid 90 lat && coord_valid 180 lon
+  | _ => false
+  end.
+
+Definition coord_to_wire (c : list sval) : Z :=
+  match c with
+  | [VI d; VI m; VI s; VI ms; VI sg] => two31 + (d * 3600000 + m * 60000 + s * 1000 + ms) * sg
+  | _ => 0
+  end.
+
+(* _exponent_of / _encode_size: SyntaxError (a DNSException) when the value is out of bounds *)
+Definition eDNSException := 800.
+Fixpoint exponent_of (i : nat) (what : Z) : option Z :=
+  (* smallest k in 0..i-... : searched upwards; i counts the remaining powers *)
+  match i with
+  | O => None
+  | S i' => if what <? 10 ^ (11 - Z.of_nat i) then Some (11 - Z.of_nat i - 1) else exponent_of i' what
+  end.
+
+Definition loc_encode_size (what : Z) : res Z :=
+  if what =? 0 then Ok 0
+  else match exponent_of 11 what with
+       | Some e => if e <? 0 then Lib eDNSException else Ok ((what / 10 ^ e) mod 16 * 16 + e mod 16)
+       | None => Lib eDNSException
+       end.
+
+Definition loc_enc (o : option name) (vs : list val) : res (list Z) :=
+  match vs with
+  | [VL [lat]; VL [lon]; VS (VI alt); VS (VI size); VS (VI hp); VS (VI vp)] =>
+      do s <- loc_encode_size size;
+      do h <- loc_encode_size hp;
+      do v <- loc_encode_size vp;
+      let la := coord_to_wire lat in
+      let lo := coord_to_wire lon in
+      let al := alt + 10000000 in
+      if (0 <=? la) && (la <? 4294967296) && (0 <=? lo) && (lo <? 4294967296) && (0 <=? al) && (al <? 4294967296) then
+        Ok ([0; s; h; v] ++ be_encode 4 la ++ be_encode 4 lo ++ be_encode 4 al)
+      else Internal iStructError
+  | _ => Internal eBadCase
+  end.
+
 (* ------------------------------------------------------------------ dispatch *)
-Definition hand_dec (h : hid) := match h with HHip => hip_dec | HIpseckey => ipseckey_dec | HAmtrelay => amtrelay_dec | HApl => apl_dec | HSvcb => svcb_dec end.
-Definition hand_valid (h : hid) := match h with HHip => hip_valid | HIpseckey => ipseckey_valid | HAmtrelay => amtrelay_valid | HApl => apl_valid | HSvcb => svcb_valid end.
-Definition hand_enc (h : hid) := match h with HHip => hip_enc | HIpseckey => ipseckey_enc | HAmtrelay => amtrelay_enc | HApl => apl_enc | HSvcb => svcb_enc end.
+Definition hand_dec (h : hid) := match h with HHip => hip_dec | HIpseckey => ipseckey_dec | HAmtrelay => amtrelay_dec | HApl => apl_dec | HSvcb => svcb_dec | HLoc => loc_dec end.
+Definition hand_valid (h : hid) := match h with HHip => hip_valid | HIpseckey => ipseckey_valid | HAmtrelay => amtrelay_valid | HApl => apl_valid | HSvcb => svcb_valid | HLoc => loc_valid end.
+Definition hand_enc (h : hid) := match h with HHip => hip_enc | HIpseckey => ipseckey_enc | HAmtrelay => amtrelay_enc | HApl => apl_enc | HSvcb => svcb_enc | HLoc => loc_enc end.
 
 (* dns.rdata.from_wire for a hand-modelled class (same frame as SchemaM.decode_rdata) *)
 Definition hand_decode_rdata (h : hid) (origin : option name) (wire : list Z) (cur rdlen : nat)
@@ -388,6 +478,13 @@ Definition hand_vals_of_obs (h : hid) (os : list obs) : option (list val) :=
   | HHip => vals_of_obs hip_shape os
   | HApl => vals_of_obs apl_shape os
   | HSvcb => vals_of_obs svcb_shape os
+  | HLoc =>
+      match os with
+      | [L [I d; I m; I s; I ms; I sg]; L [I d2; I m2; I s2; I ms2; I sg2]; I alt; I sz; I hp; I vp] =>
+          Some [VL [[VI d; VI m; VI s; VI ms; VI sg]]; VL [[VI d2; VI m2; VI s2; VI ms2; VI sg2]];
+                VS (VI alt); VS (VI sz); VS (VI hp); VS (VI vp)]
+      | _ => None
+      end
   | HIpseckey =>
       match os with
       | [I p; I g; I a; gw; B k] =>
@@ -406,6 +503,8 @@ Definition obs_of_hand_vals (h : hid) (vs : list val) : obs :=
   match h, vs with
   | HIpseckey, [p; g; a; gw; k] => L [obs_of_val p; obs_of_val g; obs_of_val a; obs_of_gw gw; obs_of_val k]
   | HAmtrelay, [p; d; t; gw] => L [obs_of_val p; obs_of_val d; obs_of_val t; obs_of_gw gw]
+  | HLoc, [VL [lat]; VL [lon]; a; s; h; v] =>
+      L [L (map obs_of_sval lat); L (map obs_of_sval lon); obs_of_val a; obs_of_val s; obs_of_val h; obs_of_val v]
   | _, _ => L (map obs_of_val vs)
   end.
 
